@@ -22,7 +22,7 @@ func init() {
 		Level: "model_checking",
 		Rule: "bounded-exhaustive: every sequence of <=3 fragments over a 47-fragment alphabet of script/style forms (start, end, self-closing, upper/mixed case, with attributes, unterminated, NUL / slash / newline inside the tag, nested in svg/math/select/table/title/textarea/noscript/comments, look-alike non-ASCII names) with uniquely numbered text markers, <=4 over a 20-fragment core, " +
 			"byte strings <=3 over B glued after the literal names, and script / style bodies of 64 KiB, 1 MiB + 1 and 3 MiB with markup and markers at their end, 15 ... 4096 open attribute-less elements before a script with a body, script / style tags with 1 ... 5000 attributes, comment bodies with entity-encoded terminators under comment-allowing policies; crossed with policies without AllowUnsafe that name script/style explicitly, match them with patterns, give them attributes or AllowNoAttrs, or un-skip their content. " +
-			"Oracle: no script/style tag in the re-tokenised or re-parsed output, and no text marker that x/net's tree builder places inside a script/style element of the input appears in the output. " +
+			"Oracle: no script/style tag in the re-tokenised or re-parsed output, and no text marker that x/net's tree builder places inside a script/style element of the input appears in the output; second oracle: when the document's first tag is a script start tag, no marker inside that element as an independent transcription of the HTML standard's script-data states (escaped, double-escaped) delimits it appears either (script bodies <=4, thorough 6, over 14 fragments that move between those states). " +
 			"non-trivial = the input contains a script or style element according to the tree builder.",
 		Assumptions: []string{"'inside a script/style element' is decided by html.ParseFragment on the input in body and div context (what a browser would execute / apply)"},
 		QuickBudget: 50, ThoroughBudget: 800,
